@@ -38,12 +38,13 @@
      (stale / dangling nodes only) and database entries are the target's.
    ROUND 4b: C12_never_stuck  FULL (hash scheme, with callback): no deadlock.
    NOT PROVED: a bound on the number of deliveries (termination proper: reaching
-     Pending() = 0 stays a hypothesis of C12_sync_complete), that Commit succeeds, the link
-     RN = c07/c11's nodes_of of an expanded trie (needs decode(encode n) = collapse n),
-     deps = (not just >=) the number of pending children, sync_progress,
-     sync_order_irrelevant, and everything about completeness in the PATH scheme (needs
+     Pending() = 0 stays a hypothesis of C12_sync_complete; Commit succeeding is
+     C12_commit_succeeds), the converse inclusion
+     RN ⊆ nodes_of (exactness in terms of nodes_of; nodes_of ⊆ RN is C12_sync_complete_nodes_of)
+     and the multi-trie (account + storage) version of the nodes_of bridge,
+     a quantitative sync_progress measure, and completeness in the PATH scheme (needs
      the prefix argument that deletions never hit a completed subtree). *)
-From GV Require Import Trie.Node Trie.Hash Storage.KV Trie.Sync Trie.SyncProofs Trie.SyncInv Trie.SyncComplete Trie.SyncQueue Trie.SyncCallback Trie.SyncLive Trie.SyncPath.
+From GV Require Import Trie.Node Trie.Hash Storage.KV Trie.Sync Trie.SyncProofs Trie.SyncInv Trie.SyncComplete Trie.SyncQueue Trie.SyncCallback Trie.SyncLive Trie.SyncPath Trie.ProofProofs Trie.GenerateNodes Trie.SyncNodesOf.
 
 (* the delivery composition (hash check, then ProcessNode) rejects a blob whose hash
    differs from the requested one and changes nothing *)
@@ -207,6 +208,91 @@ Theorem C12_sync_complete :
        (exists h, k = code_key h /\ RC H T root cb0 h /\ CD h = Some v)).
 Proof. exact sync_complete_callback. Qed.
 Print Assumptions C12_sync_complete.
+
+(* THE TARGET'S NODE SET IS c11/c07's [nodes_of].  For an expanded trie t (pwf: the
+   well-formedness of C08) whose encodings the serving side serves, every (path, encoding)
+   of the canonical node set [nodes_of H [] t] (C11_..., C07_store_is_nodes_of) is a node
+   of the sync target RN of the theorems above (nodes_of_in_RN, by decode(encode n) =
+   collapse n of C08 and "an embedded node contains no stored node"); hence, for the sync
+   of one trie in the hash scheme: when Pending() = 0, after Commit every node of
+   nodes_of H [] t is in the store under its hash. *)
+Theorem C12_sync_complete_nodes_of :
+  forall (H : list N -> list N), (forall x, length (H x) = 32%nat) ->
+  forall (T CD : list N -> option (list N)) (db0 : kv) (t : node) (et : list N) (ops : list op) (s' : sync),
+    pwf t -> node_enc H t = Some et -> H et <> empty_root H ->
+    (forall q e, In (q, e) (nodes_of H [] t) -> T (H e) = Some e) ->
+    (forall p h cb, RN H T (H et) CbNone p h cb -> h <> zero32) ->
+    (forall p h cb, RN H T (H et) CbNone p h cb -> length h = 32%nat) ->
+    (forall k v, get k db0 = Some v ->
+       (forall b, RNh H T (H et) CbNone k -> T k = Some b -> v = b) /\
+       (forall h c, k = code_key h -> RC H T (H et) CbNone h -> CD h = Some c -> v = c)) ->
+    closedA H T (H et) CbNone db0 ->
+    let s0 := unsum (new_sync H false db0 (H et) CbNone) in
+    run_wf4 H T CD s0 ops ->
+    pending (run H s0 ops) = O -> commit (run H s0 ops) = Some s' ->
+    forall q e, In (q, e) (nodes_of H [] t) -> has (H e) (sc_db s') = true.
+Proof. exact sync_complete_nodes_of. Qed.
+Print Assumptions C12_sync_complete_nodes_of.
+
+(* ORDER IRRELEVANCE (hash scheme, with the account callback): any two histories (any
+   delivery order, batching, duplication, corrupted blobs, intermediate Commits) that
+   reach Pending() = 0 leave the same store after Commit, key by key *)
+Theorem C12_sync_order_irrelevant :
+  forall (H : list N -> list N) (T CD : list N -> option (list N)) (root : list N) (cb0 : cbkind)
+         (db0 : kv),
+    (forall p h cb p' cb', RN H T root cb0 p h cb -> RN H T root cb0 p' h cb' -> cb = cb') ->
+    (forall p h cb, RN H T root cb0 p h cb -> h <> zero32) ->
+    (forall p h cb, RN H T root cb0 p h cb -> length h = 32%nat) ->
+    (forall k v, get k db0 = Some v ->
+       (forall b, RNh H T root cb0 k -> T k = Some b -> v = b) /\
+       (forall h c, k = code_key h -> RC H T root cb0 h -> CD h = Some c -> v = c)) ->
+    forall (ops1 ops2 : list op) (s1' s2' : sync),
+    closedA H T root cb0 db0 ->
+    let s0 := unsum (new_sync H false db0 root cb0) in
+    run_wf4 H T CD s0 ops1 -> pending (run H s0 ops1) = O -> commit (run H s0 ops1) = Some s1' ->
+    run_wf4 H T CD s0 ops2 -> pending (run H s0 ops2) = O -> commit (run H s0 ops2) = Some s2' ->
+    forall k, get k (sc_db s1') = get k (sc_db s2').
+Proof. exact sync_order_irrelevant. Qed.
+Print Assumptions C12_sync_order_irrelevant.
+
+(* deps = number of pending children, after any history (hash scheme, with callback):
+   node requests whose parent it is, plus its occurrences among the parents of the
+   pending code requests *)
+Theorem C12_deps_exact :
+  forall (H : list N -> list N) (T CD : list N -> option (list N)) (root : list N) (cb0 : cbkind)
+         (db0 : kv),
+    (forall p h cb p' cb', RN H T root cb0 p h cb -> RN H T root cb0 p' h cb' -> cb = cb') ->
+    (forall p h cb, RN H T root cb0 p h cb -> h <> zero32) ->
+    (forall p h cb, RN H T root cb0 p h cb -> length h = 32%nat) ->
+    (forall k v, get k db0 = Some v ->
+       (forall b, RNh H T root cb0 k -> T k = Some b -> v = b) /\
+       (forall h c, k = code_key h -> RC H T root cb0 h -> CD h = Some c -> v = c)) ->
+    forall ops : list op,
+    closedA H T root cb0 db0 ->
+    let s0 := unsum (new_sync H false db0 root cb0) in
+    run_wf5 H T CD s0 ops ->
+    forall p r, aget p (nreqs (run H s0 ops)) = Some r ->
+      nr_deps r = BinInt.Z.of_nat (cntn p (nreqs (run H s0 ops)) + cntc p (creqs (run H s0 ops))).
+Proof. exact deps_exact. Qed.
+Print Assumptions C12_deps_exact.
+
+(* Commit never fails on a reachable state (hash scheme, same hypotheses as
+   C12_sync_complete): the hypothesis "commit = Some s'" of C12_sync_complete is always met *)
+Theorem C12_commit_succeeds :
+  forall (H : list N -> list N) (T CD : list N -> option (list N)) (root : list N) (cb0 : cbkind)
+         (db0 : kv),
+    (forall p h cb p' cb', RN H T root cb0 p h cb -> RN H T root cb0 p' h cb' -> cb = cb') ->
+    (forall p h cb, RN H T root cb0 p h cb -> h <> zero32) ->
+    (forall p h cb, RN H T root cb0 p h cb -> length h = 32%nat) ->
+    (forall k v, get k db0 = Some v ->
+       (forall b, RNh H T root cb0 k -> T k = Some b -> v = b) /\
+       (forall h c, k = code_key h -> RC H T root cb0 h -> CD h = Some c -> v = c)) ->
+    forall ops : list op,
+    closedA H T root cb0 db0 ->
+    let s0 := unsum (new_sync H false db0 root cb0) in
+    run_wf4 H T CD s0 ops -> exists s', commit (run H s0 ops) = Some s'.
+Proof. exact commit_succeeds. Qed.
+Print Assumptions C12_commit_succeeds.
 
 (* SOUNDNESS IN EITHER SCHEME (ps = true: PATH scheme, with its deletions), with the
    account callback, all histories of Missing / node deliveries / code deliveries /
